@@ -35,6 +35,21 @@ def fp(arrs):
     return h.hexdigest()[:16]
 
 
+def _use_tables_in_modules():
+    """construct and call every consumer of the tables with every name"""
+    import torch
+    import pytorch_wavelets as pw
+    x = torch.zeros(1, 3, 16, 16)
+    with torch.no_grad():
+        for b in LEVEL1[:4]:
+            for q in ("qshift_06", "qshift_a", "qshift_b", "qshift_c", "qshift_d"):
+                yl, yh = pw.DTCWTForward(biort=b, qshift=q, J=2)(x)
+                pw.DTCWTInverse(biort=b, qshift=q)((yl, yh))
+        for b in LEVEL1:
+            pw.ScatLayer(biort=b)(x)
+            pw.ScatLayerj2(biort=b, qshift="qshift_b_bp" if b.endswith("_bp") else "qshift_a")(x)
+
+
 def run(rep):
     import dtcwt
     from pytorch_wavelets.dtcwt import coeffs
@@ -71,6 +86,8 @@ def run(rep):
     held = []          # (what, arrays, fingerprint at return): everything a caller might still hold (HeldStable)
     try:
         for rnd in (1, 2, 3):
+            if rnd == 2:
+                _use_tables_in_modules()          # the library's own consumers must not write into what the loader hands out
             order1 = LEVEL1 if rnd != 2 else LEVEL1[::-1]
             order2 = QSHIFT if rnd != 2 else QSHIFT[::-1]
             for n in order1:
@@ -102,6 +119,35 @@ def run(rep):
                               "loading twice does not give equal values to a caller that keeps the first result)" % what,
                               {"api": "coeffs", "check": "held_stable", "what": what})
                 break
+        # ---- names: only the documented spellings name a table; anything else raises, or - if a loader ever accepts it - must
+        # return exactly the table of the intended name; a same-named file in the working directory is not a table source
+        import tempfile
+        for loader, good, kind in ((coeffs.qshift, "qshift_a", "qshift"), (coeffs.biort, "near_sym_a", "level1")):
+            want = fp(loader(good))
+            for variant in (good.upper(), good.title(), " " + good, good + " ", good + ".npz", "./" + good):
+                rep.validated()
+                try:
+                    got = loader(variant)
+                except Exception:   # noqa   (IOError / FileNotFoundError / ValueError: the documented behaviour for unknown names)
+                    continue
+                if fp(got) != want:
+                    rep.violation("coeffs.%s(%r) is accepted and returns a table that is not '%s'" % (loader.__name__, variant, good),
+                                  {"api": "coeffs." + loader.__name__, "check": "names", "name": variant})
+        cwd = os.getcwd()
+        with tempfile.TemporaryDirectory(dir=scratch()) as td:
+            try:
+                for n in ("qshift_a", "near_sym_a"):
+                    np.savez(os.path.join(td, n + ".npz"), **{k: np.asarray(v) * 0.5 for k, v in repo[n].items()})
+                os.chdir(td)
+                coeffs.COEFF_CACHE.clear()
+                rep.validated(2)
+                if fp(coeffs.qshift("qshift_a")) != fp([repo["qshift_a"][k].reshape(-1, 1) for k in ("h0a", "h0b", "g0a", "g0b", "h1a", "h1b", "g1a", "g1b")]) \
+                        or fp(coeffs.biort("near_sym_a")) != fp([repo["near_sym_a"][k].reshape(-1, 1) for k in ("h0o", "g0o", "h1o", "g1o")]):
+                    rep.violation("a same-named .npz file in the current working directory changes what the loaders return",
+                                  {"api": "coeffs", "check": "cwd_decoy"})
+            finally:
+                os.chdir(cwd)
+                coeffs.COEFF_CACHE.clear()
     finally:
         _verif.set_sink(None)
     # hit/miss discipline of the cache as the loader model has it: first load of a name misses, later ones hit
